@@ -115,6 +115,26 @@ structure SwSt where
   bumps : Nat := 0
 deriving Repr, Inhabited
 
+/-- the two events `divide_segment` appends at the division point -/
+def dividePush (a : Arena) (seL seR : Nat) (inter : Pt) : Arena :=
+  let r : Ev := { point := inter, left := false, other := some seL, contourId := a[seL]!.contourId,
+                  isSubject := a[seL]!.isSubject, isExteriorRing := true }
+  let l : Ev := { point := inter, left := true, other := some seR, contourId := a[seL]!.contourId,
+                  isSubject := a[seL]!.isSubject, isExteriorRing := true }
+  (a.push r).push l
+
+/-- the arena after `divide_segment`: new events appended, the left/right swap of "corner case 2"
+    (rounding put the division point behind the right endpoint), the pairing re-linked -/
+def divideArena (a : Arena) (seL seR : Nat) (inter : Pt) : Arena :=
+  let n := a.size
+  let li := n + 1
+  let a := dividePush a seL seR inter
+  let a := if !isBefore a li seR then
+             (a.modify seR (fun ev => { ev with left := true })).modify li (fun ev => { ev with left := false })
+           else a
+  let a := a.modify seL (fun ev => { ev with other := some n })
+  a.modify seR (fun ev => { ev with other := some li })
+
 /-- `divide_segment(se_l, inter, queue)` -/
 def divideSegment (ar : Arith) (cfg : Cfg) (st : SwSt) (seL : Nat) (inter : Pt) : Except Fail SwSt := do
   let a := st.arena
@@ -124,20 +144,10 @@ def divideSegment (ar : Arith) (cfg : Cfg) (st : SwSt) (seL : Nat) (inter : Pt) 
   | some seR =>
     let bump := inter.x = a[seL]!.point.x ∧ inter.y < a[seL]!.point.y
     let inter : Pt := if bump then { inter with x := ar.nextUp inter.x } else inter
-    let n := a.size
-    let r : Ev := { point := inter, left := false, other := some seL, contourId := a[seL]!.contourId,
-                    isSubject := a[seL]!.isSubject, isExteriorRing := true }
-    let l : Ev := { point := inter, left := true, other := some seR, contourId := a[seL]!.contourId,
-                    isSubject := a[seL]!.isSubject, isExteriorRing := true }
-    let a := (a.push r).push l
-    let ri := n
-    let li := n + 1
-    if cfg.dbg && !isBefore a seL ri then throw (.panic (.debugAssert "divide_segment: se_l.is_before(&r)"))
-    let a := if !isBefore a li seR then
-               (a.modify seR (fun ev => { ev with left := true })).modify li (fun ev => { ev with left := false })
-             else a
-    let a := a.modify seL (fun ev => { ev with other := some ri })
-    let a := a.modify seR (fun ev => { ev with other := some li })
+    let ri := a.size
+    let li := a.size + 1
+    if cfg.dbg && !isBefore (dividePush a seL seR inter) seL ri then throw (.panic (.debugAssert "divide_segment: se_l.is_before(&r)"))
+    let a := divideArena a seL seR inter
     let h := Heap.push (evLe a) st.heap li
     let h := Heap.push (evLe a) h ri
     return { st with arena := a, heap := h, bumps := st.bumps + (if bump then 1 else 0) }
